@@ -88,7 +88,8 @@ theorem grid_step_le_requested (mn mx dw : ℚ) (hdw : 0 < dw) (hN : 1 ≤ (grid
   have hn : ¬ (N + 1 = 1) := by omega
   constructor
   · intro i hi
-    unfold commonGrid linspace
+    rw [commonGrid_eq mn mx dw (by omega)]
+    unfold linspace
     rw [← hNdef, if_neg hn]
     simp only [List.getElem?_map, Nat.add_sub_cancel]
     constructor
@@ -96,7 +97,7 @@ theorem grid_step_le_requested (mn mx dw : ℚ) (hdw : 0 < dw) (hN : 1 ≤ (grid
     · rw [List.getElem?_range (by omega)]; simp
   · have hNpos : (0 : ℚ) < (N : ℚ) := by exact_mod_cast (by omega : 0 < N)
     have hceil : (mx - mn - gridTol dw) / dw ≤ ((gridNum mn mx dw : Int) : ℚ) := by
-      unfold gridNum; exact Rat.le_ceil
+      rw [gridNum_eq]; exact Rat.le_ceil
     have hcast : ((gridNum mn mx dw : Int) : ℚ) = (N : ℚ) := by
       have : (gridNum mn mx dw) = (N : Int) := by
         rw [hNdef]; exact (Int.toNat_of_nonneg (by omega)).symm
@@ -111,15 +112,16 @@ theorem grid_step_le_requested (mn mx dw : ℚ) (hdw : 0 < dw) (hN : 1 ≤ (grid
 sampling by k > 0 leaves the number of intervals unchanged (so no absolute cap or tolerance can enter) -/
 theorem grid_size_scale_invariant (mn mx dw k : ℚ) (hk : 0 < k) (hdw : dw ≠ 0) :
     gridNum (mn * k) (mx * k) (dw * k) = gridNum mn mx dw := by
-  unfold gridNum gridTol
+  rw [gridNum_eq, gridNum_eq, gridTol_eq, gridTol_eq]
   congr 1
   have hk' : k ≠ 0 := ne_of_gt hk
   field_simp
 
 /-- the grid starts at the smaller of the two minima, has `ceil((max−min−tol)/Δ)+1` points … -/
-theorem grid_spans_union_start (mn mx dw : ℚ) :
+theorem grid_spans_union_start (mn mx dw : ℚ) (h0 : 0 ≤ gridNum mn mx dw) :
     (commonGrid mn mx dw).head? = some mn ∧ (commonGrid mn mx dw).length = (gridNum mn mx dw).toNat + 1 := by
-  unfold commonGrid linspace
+  rw [commonGrid_eq mn mx dw h0]
+  unfold linspace
   split
   · simp_all
   · rename_i hn
@@ -132,7 +134,8 @@ theorem grid_spans_union_start (mn mx dw : ℚ) :
 /-- … and ends at the larger of the two maxima -/
 theorem grid_spans_union_end (mn mx dw : ℚ) (h : 1 ≤ (gridNum mn mx dw).toNat) :
     (commonGrid mn mx dw).getLast? = some mx := by
-  unfold commonGrid linspace
+  rw [commonGrid_eq mn mx dw (by omega)]
+  unfold linspace
   have hn : ¬ ((gridNum mn mx dw).toNat + 1 = 1) := by omega
   rw [if_neg hn, List.getLast?_map, List.getLast?_range]
   rw [if_neg (by omega)]
@@ -155,7 +158,7 @@ theorem op_comm (op : ℚ → ℚ → ℚ) (hc : ∀ a b, op a b = op b a) (s1 s
   cases samplingOf m s1.wave s2.wave with
   | none => rfl
   | some dw =>
-    simp only [min_comm lo2 lo1, max_comm hi2 hi1]
+    simp only [interpMin_eq, interpMax_eq, min_comm lo2 lo1, max_comm hi2 hi1]
     congr 1
     congr 1
     exact List.zipWith_comm_of_comm hc
